@@ -141,12 +141,15 @@ fn canon(v: &Value) -> Value {
     Value::Array(v.as_array().unwrap().iter().map(|i| json!(id_of_char(char_of_id(i.as_str().unwrap())))).collect())
 }
 
-fn same_tokens(want: &Value, got: &Value, text: &str) -> bool {
+// `sig`: compare only the significant tokens (C09 is about the partition of the text; whether a line break becomes a
+// terminator is C10's subject)
+fn same_tokens(want: &Value, got: &Value, text: &str, sig: bool) -> bool {
     if want["ok"] != got["ok"] {
         return false;
     }
     if want["ok"].as_bool() == Some(true) {
-        let (w, g) = (want["toks"].as_array().unwrap(), got["toks"].as_array().unwrap());
+        let keep = |v: &Value| -> Vec<Value> { v["toks"].as_array().unwrap().iter().filter(|t| !sig || t["k"] != "NLTERM").cloned().collect() };
+        let (w, g) = (&keep(want), &keep(got));
         if w.len() != g.len() {
             return false;
         }
@@ -183,8 +186,9 @@ fn same_tokens(want: &Value, got: &Value, text: &str) -> bool {
     }
 }
 
-// gv replay-lex <tlc-output> <out.json>
+// gv replay-lex <tlc-output> <out.json> [sig]
 pub fn replay(args: &[String]) {
+    let sig = args.get(2).is_some_and(|s| s == "sig");
     util::quiet_panics();
     colored::control::set_override(true);
     let lines = util::tagged_lines(&args[0], "LEX");
@@ -192,7 +196,7 @@ pub fn replay(args: &[String]) {
         let rec = util::parse_tlc_line(line, "LEX").expect("bad LEX line");
         let text: String = rec["t"].as_array().unwrap().iter().map(|i| char_of_id(i.as_str().unwrap())).collect();
         let got = observe(&text);
-        if same_tokens(&rec["r"], &got, &text) { None } else { Some(json!({"text": text, "ids": rec["t"], "want": rec["r"], "got": got})) }
+        if same_tokens(&rec["r"], &got, &text, sig) { None } else { Some(json!({"text": text, "ids": rec["t"], "want": rec["r"], "got": got})) }
     });
     let bad: Vec<Value> = results.into_iter().flatten().collect();
     let sample = lines.get(lines.len() / 2).and_then(|l| util::parse_tlc_line(l, "LEX"));
@@ -243,8 +247,9 @@ pub fn random_text(r: &mut StdRng, n: usize) -> String {
     s
 }
 
-// gv record-lex <seed> <count> <max-chars> <trace.ndjson>
+// gv record-lex <seed> <count> <max-chars> <trace.ndjson> [sig|full]
 pub fn record(args: &[String]) {
+    let mode = args.get(4).cloned().unwrap_or_else(|| "full".to_string());
     util::quiet_panics();
     colored::control::set_override(true);
     let seed: u64 = args[0].parse().unwrap();
@@ -256,7 +261,7 @@ pub fn record(args: &[String]) {
         let n = r.gen_range(1..=maxc);
         let text = random_text(&mut r, n);
         let got = observe(&text);
-        let mut ev = json!({"ev": "lex", "text": text_chars(&text), "obs": got});
+        let mut ev = json!({"ev": "lex", "mode": mode, "text": text_chars(&text), "obs": got});
         ev["obs"].as_object_mut().unwrap().remove("first_msg");
         out += &format!("{ev}\n");
     }
